@@ -314,6 +314,35 @@ let split_semicolon (toks : Stdlib.String.t list) : Stdlib.String.t list * Stdli
     | [] -> raise (Parse "';' expected") in
   go [] toks
 
+let diag_items (b : Buffer.t) (fm : format) (l : value list) : unit =
+  match l with
+  | [] -> Buffer.add_string b "empty"
+  | c :: rest ->
+    (match code_of (code_rule_of shape_int fm) c with
+     | None -> Buffer.add_string b "code=unacceptable"
+     | Some code ->
+       (match find_new code gen_schema.sc_new with
+        | None -> Buffer.add_string b "code=unknown"
+        | Some nc ->
+          (match find_struct nc.n_struct gen_schema.sc_structs with
+           | None -> Buffer.add_string b "struct=missing"
+           | Some sd ->
+             let rec go i fs its = match fs, its with
+               | f :: fs', it :: its' ->
+                 if compatible f.f_kind it then go (i + 1) fs' its'
+                 else begin
+                   let fk = (match f.f_kind with FKId -> "id" | FKUri -> "uri" | FKStr -> "string" | FKDict -> "dict"
+                                              | FKList -> "list" | FKMsgType -> "msgtype" | FKOther -> "other") in
+                   let ik = (match it with
+                       | VNull -> "nil" | VBool _ -> "bool"
+                       | VInt (KI64, z) -> (match z with Zneg _ -> "negative-int64" | _ -> "int64")
+                       | VInt (KU64, _) -> "uint64" | VFloat _ -> "float64" | VStr _ -> "string" | VBin _ -> "bytes"
+                       | VList _ -> "list" | VDict _ -> "dict") in
+                   Buffer.add_string b (Printf.sprintf "field=%d fkind=%s item=%s" i fk ik)
+                 end
+               | _, _ -> Buffer.add_string b "all-compatible" in
+             go 1 sd.s_fields rest)))
+
 let handle (b : Buffer.t) (op : Stdlib.String.t) (args : Stdlib.String.t list) : unit =
   match op, args with
   | "ser", f :: rest ->
@@ -375,40 +404,15 @@ let handle (b : Buffer.t) (op : Stdlib.String.t) (args : Stdlib.String.t list) :
     let fm = format_of f in
     let bs = bytes_of_hex h in
     (match decode_value fparse_go gen_mp_opts fm bs with
-     | DOk (VList _, _) | DUnsup | DErr | DFuel ->
-       (match items_of fparse_go gen_mp_opts shape_gen fm bs with
-        | SOk (c :: rest, _) ->
-          let is_list = (match decode_value fparse_go gen_mp_opts fm bs with DOk (VList _, _) -> true | _ -> false) in
-          if not is_list then Buffer.add_string b "top=not-a-list"
-          else
-          (match code_of (code_rule_of shape_gen fm) c with
-           | None -> Buffer.add_string b "code=unacceptable"
-           | Some code ->
-             (match find_new code gen_schema.sc_new with
-              | None -> Buffer.add_string b "code=unknown"
-              | Some nc ->
-                (match find_struct nc.n_struct gen_schema.sc_structs with
-                 | None -> Buffer.add_string b "struct=missing"
-                 | Some sd ->
-                   let rec go i fs its = match fs, its with
-                     | f :: fs', it :: its' ->
-                       if compatible f.f_kind it then go (i + 1) fs' its'
-                       else begin
-                         let fk = (match f.f_kind with FKId -> "id" | FKUri -> "uri" | FKStr -> "string" | FKDict -> "dict"
-                                                    | FKList -> "list" | FKMsgType -> "msgtype" | FKOther -> "other") in
-                         let ik = (match it with
-                             | VNull -> "nil" | VBool _ -> "bool"
-                             | VInt (KI64, z) -> (match z with Zneg _ -> "negative-int64" | _ -> "int64")
-                             | VInt (KU64, _) -> "uint64" | VFloat _ -> "float64" | VStr _ -> "string" | VBin _ -> "bytes"
-                             | VList _ -> "list" | VDict _ -> "dict") in
-                         Buffer.add_string b (Printf.sprintf "field=%d fkind=%s item=%s" i fk ik)
-                       end
-                     | _, _ -> Buffer.add_string b "all-compatible" in
-                   go 1 sd.s_fields rest)))
-        | SOk ([], _) -> Buffer.add_string b "empty"
-        | _ -> Buffer.add_string b "undecodable")
+     | DOk (VList l, _) -> diag_items b fm l
      | DOk (VDict _, _) -> Buffer.add_string b "top=map"
-     | DOk (_, _) -> Buffer.add_string b "top=not-a-list")
+     | DOk (_, _) -> Buffer.add_string b "top=not-a-list"
+     | DUnsup | DErr | DFuel -> Buffer.add_string b "undecodable")
+  | "diagl", f :: rest ->
+    let fm = format_of f in
+    (match parse_value2 rest with
+     | (VList l, _) -> diag_items b fm l
+     | _ -> raise (Parse "diagl: list expected"))
   | "equiv", rest ->
     let (a, c) = split_semicolon rest in
     let (m, _) = parse_msg a in
